@@ -38,6 +38,11 @@ def outcome(fn, ex, T, field_path):
                 names = [e.get("name") for e in s["p"]["proj"] if e["k"] == "field"]
                 if names == field_path and s["p"]["l"] == 1:
                     stores.append(T.rvalue(s["r"]))
+                elif s["p"]["proj"][0]["k"] == "deref" and s["p"]["l"] != 1:
+                    # through a reference bound to that very field (a helper that got `&mut self.config.stdout`)
+                    sl = T.place_slot(s["p"])
+                    if sl is not None and sl[1][0] == "param" and sl[1][1] == 1 and [x for x in sl[2] if x != "*"] == list(field_path):
+                        stores.append(T.rvalue(s["r"]))
     panics = [bb for bb, t in ex.calls() if is_panic_call(t)]
     rets = ex.returns()
     if panics and not rets and not stores:
